@@ -175,7 +175,7 @@ Proof.
     destruct (dep_visits (b_vis sr) (deps_of pr d)) as [vsr|] eqn:Hvsr.
   2:{ destruct Hdom as [_ Hx]. specialize (Hx eq_refl). discriminate. }
   2:{ destruct Hdom as [Hx _]. specialize (Hx eq_refl). discriminate. }
-  2:{ intros _. destruct P. constructor; cbn [b_w b_vis b_events b_bad]; try assumption. reflexivity. }
+  2:{ intros _. destruct P. constructor; cbn [b_w b_vis b_events b_bad]; try assumption; try reflexivity. }
   destruct (dep_visits_psim pr w sd sr _ _ _ P Hvsd Hvsr) as (Ffd & Ffr & Hdu).
   rewrite (ps_rec _ _ _ _ P l Hlr).
   set (r := rec_of w l).
@@ -190,12 +190,12 @@ Proof.
   destruct (step_target_frame _ _ _ _ _ _ _ _ _ _ Hsr) as (Fproj & Frec & Ffiles).
   (* the two runs take the same decision *)
   assert (Hcond : skip_cond (dry_of c) w d r vsd = skip_cond c (b_w sr) d r vsr).
-  { unfold skip_cond. cbn [dry_of c_always]. rewrite (Hdu r).
-    destruct (deps_up_to_date r vsr) eqn:Hdur; [|rewrite !andb_false_r; reflexivity].
+  { unfold skip_cond, r. cbn [dry_of c_always]. rewrite (Hdu (rec_of w l)).
+    destruct (deps_up_to_date (rec_of w l) vsr) eqn:Hdur; [|rewrite !andb_false_r; reflexivity].
     assert (Hunch : forall dl vd0, In (dl, vd0) vsr -> v_changed vd0 = false).
     { intros dl vd0 Hin. unfold deps_up_to_date in Hdur. rewrite forallb_forall in Hdur.
       specialize (Hdur (dl, vd0) Hin). cbn [fst snd] in Hdur.
-      destruct (lookup dl (r_deps r)); [|discriminate].
+      destruct (lookup dl (r_deps (rec_of w l))); [|discriminate].
       apply andb_prop in Hdur. destruct Hdur as [_ Hn]. apply negb_true_iff in Hn. exact Hn. }
     rewrite (up_to_date_psim pr w sd sr l d vsr P Hlink Hgu Hd Hlr Hvsr Hunch). reflexivity. }
   destruct (step_target_cases (dry_of c) w l d r vsd wd' vd ed rand eq_refl Ffd Hsd)
@@ -204,7 +204,7 @@ Proof.
     as [(Cr & -> & -> & ->)|(Cr & Evr & _ & Chr)]; try congruence.
   - (* both up to date *)
     unfold finish. destruct P as [P1 P2 P3 P4 P5 P6 P7 P8].
-    constructor; cbn [b_w b_vis b_events b_bad]; try assumption.
+    constructor; cbn [b_w b_vis b_events b_bad]; try assumption; try reflexivity.
     + intros x. destruct (N.eq_dec x l) as [->|Hne].
       * rewrite !lookup_update_same. split; discriminate.
       * rewrite !(lookup_update_other _ _ _ _ Hne). apply P3.
@@ -214,13 +214,12 @@ Proof.
     + intros x Hx. apply P5. destruct (N.eq_dec x l) as [->|Hne];
         [rewrite lookup_update_same in Hx; discriminate|rewrite (lookup_update_other _ _ _ _ Hne) in Hx; exact Hx].
     + intros p. destruct (P6 p) as [E|Wit]; [left; exact E|right; apply psim_witness_persist; assumption].
-    + intros x. simpl. split; (intros [E|H]; [discriminate|right; apply P7; exact H]) || idtac.
-      split; intros [E|H]; try discriminate; right; apply P7; exact H.
+    + intros x. simpl. split; intros [E|H]; try discriminate; right; apply (P7 x); exact H.
   - (* both evaluate *)
     destruct (Dryd eq_refl) as [-> ->].
     specialize (Chr Hokr).
     unfold finish. destruct P as [P1 P2 P3 P4 P5 P6 P7 P8].
-    constructor; cbn [b_w b_vis b_events b_bad]; try assumption.
+    constructor; cbn [b_w b_vis b_events b_bad]; try assumption; try reflexivity.
     + rewrite Fproj. exact P2.
     + intros x. destruct (N.eq_dec x l) as [->|Hne].
       * rewrite !lookup_update_same. split; discriminate.
@@ -237,4 +236,35 @@ Proof.
     + intros x. destruct (N.eq_dec x l) as [->|Hne].
       * split; intros _; apply in_or_app; left; assumption.
       * rewrite (in_evaluating_other l x ed _ Labd Hne), (in_evaluating_other l x er _ Labr Hne). apply P7.
+Qed.
+
+Lemma fold_psim c pr w order : forall sd sr,
+  c_dry c = false -> c_crashed c = false -> link_ok pr = true -> gens_unique pr -> w_proj w = pr ->
+  psim pr w sd sr ->
+  (forall x v, lookup x (b_vis (fold_left (eval1 c) order sr)) = Some v -> v_res v = ROk) ->
+  psim pr w (fold_left (eval1 (dry_of c)) order sd) (fold_left (eval1 c) order sr).
+Proof.
+  induction order as [|l order IH]; intros sd sr Hdry Hcr Hlink Hgu Hw P Hok; simpl; [exact P|].
+  apply IH; try assumption.
+  apply eval1_psim; try assumption.
+  intros v Hv. apply (Hok l v). simpl. apply fold_vis_persist. exact Hv.
+Qed.
+
+(** C13: when the real build visits every target successfully, the dry run of the same tree reports 'evaluating' for
+    exactly the same targets (and, by [dry_build_no_effects], executes none of them). *)
+Theorem dry_run_predicts c w l :
+  c_dry c = false -> c_crashed c = false -> link_ok (w_proj w) = true -> gens_unique (w_proj w) ->
+  let real := build c w l in
+  let dry := build (dry_of c) w l in
+  (forall x v, lookup x (o_vis real) = Some v -> v_res v = ROk) ->
+  forall x, In (EEvaluating x) (o_events dry) <-> In (EEvaluating x) (o_events real).
+Proof.
+  intros Hdry Hcr Hlink Hgu. cbv zeta. unfold build. rewrite load_proj, Hlink.
+  unfold run_order; cbn [o_vis o_events]. intros Hok x.
+  assert (P0 : psim (w_proj w) (load w) (mkB (load w) [] [] [] false) (mkB (load w) [] [] [] false)).
+  { constructor; cbn [b_w b_vis b_events b_bad]; try reflexivity.
+    - intros y vd vr H. simpl in H. discriminate.
+    - intros p. left. reflexivity. }
+  pose proof (fold_psim c (w_proj w) (load w) (order_of (w_proj w) l) _ _ Hdry Hcr Hlink Hgu (load_proj w) P0 Hok) as P.
+  rewrite <- !in_rev. apply (ps_ev _ _ _ _ P x).
 Qed.
